@@ -95,68 +95,197 @@ Proof. exact (sptr_solve_serial_steps lower A D nt l x). Qed.
 Print Assumptions C09_sptr_solve_serial.
 
 (* ---------------------------------------------------------------------------------- *)
-(* A3  gauss_seidel::parallel_sweep<forward> (any S), structurally symmetric pattern:
-   every interleaving of the schedule gives the serial sweep Relax.gs_sweep.            *)
+(* A3  gauss_seidel::parallel_sweep<forward> (any S), with the level loop as it is after
+   the fix /repo f214b60 (second loop over the row: level[c] = max(level[c], l+1) for the
+   columns that are swept later).  For EVERY sparsity pattern (no structural symmetry
+   needed), both sweep directions, every nt >= 1:                                        *)
+(* ... every row appears in exactly one task *)
 Theorem C09_gs_schedule_is_permutation (S : Scalar) forward (A : crs S) nt : 1 <= nt ->
   Permutation (flat_sched (gs_schedule forward A nt)) (seq 0 (nrows A)).
 Proof. exact (gs_schedule_perm forward A nt). Qed.
 Print Assumptions C09_gs_schedule_is_permutation.
 
+(* ... the level numbers order both kinds of dependency between rows i and c with a_ic <> 0
+   structurally: c swept earlier (true dependency) => level c < level i; c swept later
+   (anti-dependency: row i must still see the old x[c]) => level i < level c *)
+Theorem C09_gs_levels_order (S : Scalar) forward (A : crs S) i c :
+  i < nrows A -> c < nrows A -> In c (cols_of A i) -> c <> i ->
+  (serial_before forward c i = true -> nth c (gs_levels forward A) 0 < nth i (gs_levels forward A) 0) /\
+  (serial_before forward c i = false -> nth i (gs_levels forward A) 0 < nth c (gs_levels forward A) 0).
+Proof. exact (gs_levels_order forward A i c). Qed.
+Print Assumptions C09_gs_levels_order.
+
+(* ... the whole validity criterion holds *)
+Theorem C09_gs_schedule_valid (S : Scalar) forward (A : crs S) nt : 1 <= nt ->
+  sched_valid (gs_reads A) (nrows A) forward (gs_schedule forward A nt).
+Proof. exact (gs_schedule_valid forward A nt). Qed.
+Print Assumptions C09_gs_schedule_valid.
+
+(* ... the threads of every level are pairwise independent (no data race) *)
 Theorem C09_gs_levels_race_free (S : Scalar) forward (A : crs S) nt rhs ts :
-  1 <= nt -> pattern_symmetric A -> In ts (gs_par_levels forward A nt rhs) -> cross_indep ts.
+  1 <= nt -> In ts (gs_par_levels forward A nt rhs) -> cross_indep ts.
 Proof. exact (gs_levels_cross_indep forward A nt rhs ts). Qed.
 Print Assumptions C09_gs_levels_race_free.
 
+(* ... and every interleaving of the schedule gives the serial sweep Relax.gs_sweep *)
 Theorem C09_gs_parallel_sweep_serial (S : Scalar) forward (A : crs S) nt rhs l (x : vec S) :
-  1 <= nt -> pattern_symmetric A ->
+  1 <= nt ->
   InterleaveLevels (gs_par_levels forward A nt rhs) l ->
   exec l x = gs_sweep A rhs x forward.
 Proof. exact (gs_parallel_sweep_serial forward A nt rhs l x). Qed.
 Print Assumptions C09_gs_parallel_sweep_serial.
 
-(* Without structural symmetry the statement is FALSE for the faithful model of the
-   schedule (the level loop only looks at the row's own already-swept neighbours and so
-   misses anti-dependencies):
-   FULL STATEMENT (refuted): forall S forward (A : crs S) nt rhs l x, 1 <= nt ->
-     InterleaveLevels (gs_par_levels forward A nt rhs) l -> exec l x = gs_sweep A rhs x forward.
+(* HISTORICAL (documentation of finding C09-gs-antidep, fixed by /repo f214b60).  The level
+   rule BEFORE the fix (GsSched.gs_levels_old: only the row's own already-swept neighbours)
+   violates the property on structurally non-symmetric patterns:
    Witness 1 (data race): A = [[1,1],[0,1]], f = (10,1), x = (0,5), 4 threads: rows 0 and 1
    share level 0 although row 0 reads x[1]; thread order 0,1 gives the serial (5,1),
-   thread order 1,0 gives (9,1).  Replayed on the implementation by the check
-   (gs_sweep op, NONDET [5 1] [9 1]).                                                   *)
-Theorem C09_gs_schedule_race_refuted :
+   thread order 1,0 gives (9,1).  Replayed on the implementation before the fix
+   (gs_sweep op: NONDET [5 1] [9 1]); the fixed rule passes sched_ok on the same input.   *)
+Theorem C09_gs_schedule_old_race_refuted :
   exists (A : crs QcS) (nt : nat) (rhs x : vec QcS) (l1 l2 : list (step QcS)),
     4 <= nt /\
-    InterleaveLevels (gs_par_levels true A nt rhs) l1 /\
-    InterleaveLevels (gs_par_levels true A nt rhs) l2 /\
+    InterleaveLevels (gs_par_levels_old true A nt rhs) l1 /\
+    InterleaveLevels (gs_par_levels_old true A nt rhs) l2 /\
     exec l1 x <> exec l2 x /\
     exec l1 x = gs_sweep A rhs x true /\
     exec l2 x <> gs_sweep A rhs x true /\
-    gs_sched_ok true A (gs_schedule true A nt) = false.
-Proof. exact gs_schedule_race_refuted. Qed.
-Print Assumptions C09_gs_schedule_race_refuted.
+    gs_sched_ok true A (gs_schedule_old true A nt) = false /\
+    gs_sched_ok true A (gs_schedule true A nt) = true.
+Proof. exact gs_schedule_old_race_refuted. Qed.
+Print Assumptions C09_gs_schedule_old_race_refuted.
 
-(* Witness 2 (deterministic): rows {0:1} {0:1,1:1,2:1} {2:2}: levels (0,1,0); row 1 reads
+(* Witness 2 (deterministic): rows {0:1} {0:1,1:1,2:1} {2:2}: old levels (0,1,0); row 1 reads
    x[2] whose writer sits in the EARLIER level 0: no two rows of a level conflict, yet the
-   parallel sweep gives (1,7,2) where the serial sweep gives (1,4,2).                    *)
-Theorem C09_gs_schedule_order_refuted :
+   old schedule gives (1,7,2) where the serial sweep gives (1,4,2).                       *)
+Theorem C09_gs_schedule_old_order_refuted :
   exists (A : crs QcS) (nt : nat) (rhs x : vec QcS) (l : list (step QcS)),
     4 <= nt /\
-    InterleaveLevels (gs_par_levels true A nt rhs) l /\
-    level_conflict_free (gs_reads A) (gs_schedule true A nt) = true /\
+    InterleaveLevels (gs_par_levels_old true A nt rhs) l /\
+    level_conflict_free (gs_reads A) (gs_schedule_old true A nt) = true /\
     exec l x <> gs_sweep A rhs x true /\
-    first_dep_violation (gs_reads A) (nrows A) true (gs_schedule true A nt) = Some (1, 2).
-Proof. exact gs_schedule_order_refuted. Qed.
-Print Assumptions C09_gs_schedule_order_refuted.
+    first_dep_violation (gs_reads A) (nrows A) true (gs_schedule_old true A nt) = Some (1, 2) /\
+    gs_sched_ok true A (gs_schedule true A nt) = true.
+Proof. exact gs_schedule_old_order_refuted. Qed.
+Print Assumptions C09_gs_schedule_old_order_refuted.
+
+(* ---------------------------------------------------------------------------------- *)
+(* A2' (ring)  the row function of sptr_solve (X = sum; x[i] -= X, resp. D*(x[i]-X)) applied
+   in serial order IS serial_solve's entry-by-entry in-place update, so that the
+   level-scheduled solve equals ilu_solve::serial_solve for every thread count and every
+   interleaving.  (In floats the two forms associate the row sum differently: "equal up
+   to summation-order rounding", stated in the property, not proved.)                     *)
+Section Ring.
+Variable S : Scalar.
+Hypothesis Srt : Sring S.
+
+Theorem C09_sptr_rows_eq_serial_lower (L : crs S) (D x : vec S) :
+  strict_tri true L -> length x = nrows L ->
+  exec (sptr_serial_steps true L D) x = serial_lower L x.
+Proof. exact (sptr_serial_steps_lower S Srt L D x). Qed.
+
+Theorem C09_sptr_rows_eq_serial_upper (U : crs S) (D x : vec S) :
+  strict_tri false U -> length x = nrows U ->
+  exec (sptr_serial_steps false U D) x = serial_upper U D x.
+Proof. exact (sptr_serial_steps_upper S Srt U D x). Qed.
+
+Theorem C09_ilu_parallel_solve_serial (L U : crs S) (D x : vec S) nt l1 l2 :
+  1 <= nt -> strict_tri true L -> strict_tri false U ->
+  length x = nrows L -> nrows U = nrows L ->
+  InterleaveLevels (sptr_par_levels true L D nt) l1 ->
+  InterleaveLevels (sptr_par_levels false U D nt) l2 ->
+  exec l2 (exec l1 x) = ilu_serial_solve L U D x.
+Proof. exact (ilu_parallel_solve_serial S Srt L U D x nt l1 l2). Qed.
+End Ring.
+
+Theorem C09_ilu_parallel_solve_serial_Qc (L U : crs QcS) (D x : vec QcS) nt l1 l2 :
+  1 <= nt -> strict_tri true L -> strict_tri false U ->
+  length x = nrows L -> nrows U = nrows L ->
+  InterleaveLevels (sptr_par_levels true L D nt) l1 ->
+  InterleaveLevels (sptr_par_levels false U D nt) l2 ->
+  exec l2 (exec l1 x) = ilu_serial_solve L U D x.
+Proof. exact (C09_ilu_parallel_solve_serial QcS QcS_ring L U D x nt l1 l2). Qed.
+Print Assumptions C09_ilu_parallel_solve_serial_Qc.
+
+(* ---------------------------------------------------------------------------------- *)
+(* A4 (any value type)  row-parallel loops are maps.  A "parallel for" whose iteration i
+   writes only cell i of the output and reads of the output at most cell i gives, for
+   EVERY assignment of iterations to threads ([its]: static, dynamic, guided ...) and
+   every interleaving, the map.  Kernels of the model with this shape: all in-place
+   vector updates of Kernels.v are upd2/upd3 (spmv, residual, axpby, axpbypcz, vmul,
+   copy, clear); all row-wise matrix kernels of MatOps.v are maps over the rows of A
+   (spgemm_saad with thread-private markers, msum, mscale, sort_rows, diagonal, the
+   smoothed-aggregation filter/smoothing loop).                                          *)
+Theorem C09_parallel_for_is_map (V : Type) (d : V) (body : nat -> V -> V) n its l st :
+  length st = n -> Permutation (concat its) (seq 0 n) ->
+  Interleave (par_for_steps d body its) l ->
+  exec l st = map (fun i => body i (nth i st d)) (seq 0 n).
+Proof. exact (par_for_map V d body n its l st). Qed.
+Print Assumptions C09_parallel_for_is_map.
+
+Theorem C09_upd2_parallel (S : Scalar) (f : S -> S -> S) (x y : vec S) its l :
+  length x = length y -> Permutation (concat its) (seq 0 (length y)) ->
+  Interleave (par_for_steps s0 (fun i yi => f (vget x i) yi) its) l ->
+  exec l y = upd2 f x y.
+Proof. exact (upd2_parallel f x y its l). Qed.
+Print Assumptions C09_upd2_parallel.
+
+Theorem C09_upd3_parallel (S : Scalar) (f : S -> S -> S -> S) (x y z : vec S) its l :
+  length x = length z -> length y = length z ->
+  Permutation (concat its) (seq 0 (length z)) ->
+  Interleave (par_for_steps s0 (fun i zi => f (vget x i) (vget y i) zi) its) l ->
+  exec l z = upd3 f x y z.
+Proof. exact (upd3_parallel f x y z its l). Qed.
+Print Assumptions C09_upd3_parallel.
+
+Theorem C09_map_rows_parallel (X Y : Type) (F : X -> Y) (dx : X) (dy : Y) (inp : list X) (out : list Y) its l :
+  length out = length inp -> Permutation (concat its) (seq 0 (length inp)) ->
+  Interleave (par_for_steps dy (fun i _ => F (nth i inp dx)) its) l ->
+  exec l out = map F inp.
+Proof. exact (map_rows_parallel F dx dy inp out its l). Qed.
+Print Assumptions C09_map_rows_parallel.
+
+(* ---------------------------------------------------------------------------------- *)
+(* A5  reductions.  std::max over a strict total order: per-thread maxima combined in any
+   order (critical section) = the serial maximum, for every chunking and every order of
+   the elements (spectral_radius Gershgorin branch, spgemm_rmerge row widths).           *)
+Theorem C09_max_reduction_order_independent (S : Scalar) :
+  (forall a : S, sltb a a = false) ->
+  (forall a b c : S, sltb a b = true -> sltb b c = true -> sltb a c = true) ->
+  (forall a b : S, sltb a b = false -> sltb b a = false -> a = b) ->
+  forall (e : S) (cs : list (list S)) (l : list S),
+  Permutation (concat cs) l -> reduce_chunked smax e cs = reduce smax e l.
+Proof. exact (max_reduction_order_independent S). Qed.
+Print Assumptions C09_max_reduction_order_independent.
+
+Theorem C09_max_reduction_order_independent_Qc (e : QcS) (cs : list (list QcS)) (l : list QcS) :
+  Permutation (concat cs) l -> reduce_chunked smax e cs = reduce smax e l.
+Proof. exact (max_reduction_order_independent QcS QcS_lt_irr QcS_lt_trans QcS_lt_tri e cs l). Qed.
+Print Assumptions C09_max_reduction_order_independent_Qc.
+
+(* any associative-commutative operation with an idempotent start value *)
+Theorem C09_ac_reduction_order_independent (X : Type) (op : X -> X -> X) :
+  (forall a b c, op (op a b) c = op a (op b c)) -> (forall a b, op a b = op b a) ->
+  forall e cs l, op e e = e -> Permutation (concat cs) l -> reduce_chunked op e cs = reduce op e l.
+Proof. exact (reduce_chunked_any_order X op). Qed.
+Print Assumptions C09_ac_reduction_order_independent.
+
+(* "+" (ring): the per-thread Kahan inner product equals the serial one for every chunking:
+   this is C07_inner_product_parallel (KernelsProofs.inner_product_parallel_spec), cited *)
+Theorem C09_inner_product_any_chunking (S : Scalar) (Srt : Sring S) lens (x y : vec S) :
+  length (combine x y) <= fold_right Nat.add 0 lens ->
+  inner_product_parallel lens x y = inner_product_serial x y.
+Proof. exact (inner_product_parallel_spec Srt lens x y). Qed.
 
 (* ---------------------------------------------------------------------------------- *)
 (* non-vacuity: the hypotheses are satisfiable by inputs whose schedules have several
    levels and several busy threads                                                       *)
 Example C09_nonvacuous :
-  pattern_symmetric sym_A /\ strict_tri true tri_L /\ strict_tri false tri_U /\
+  strict_tri true tri_L /\ strict_tri false tri_U /\
   gs_schedule true sym_A 2 = [[[0]; [3]]; [[1]; [4]]; [[2]; []]] /\
   sptr_schedule true tri_L 2 = [[[0]; [2]]; [[1]; [3]]; [[4]; []]] /\
   sptr_schedule false tri_U 2 = [[[2]; [4]]; [[1]; [3]]; [[0]; []]].
 Proof.
-  split; [exact sym_A_symmetric|]. split; [exact tri_L_strict|]. split; [exact tri_U_strict|].
+  split; [exact tri_L_strict|]. split; [exact tri_U_strict|].
   vm_compute. repeat split; reflexivity.
 Qed.
